@@ -62,6 +62,8 @@ class History:
         self.listings = []
         self.tagids = {}  # tag index -> id of annotated tag object (kind a/aa)
         self.octopus = set()  # commit ids with > 2 parents
+        self.shafiles = {}  # id -> the ShaFile as constructed (to store an object again after it was pruned)
+        self.last_tips = []
 
     @property
     def done(self) -> bool:
@@ -109,7 +111,7 @@ class History:
         parents, ctime, edit, branch = spec["commits"][i]
         salt = spec.get("salt", 0)
         base = self.listings[parents[0]] if parents else BASE
-        listing = edit_listing(base, edit + 7 * (i % 3 == 2), salt)
+        listing = edit_listing(base, edit, salt)
         built = []
         tree_id = self._build_trees(listing, built)
         c = Commit()
@@ -146,9 +148,11 @@ class History:
             self.tagids[n] = t.id
             refs[tag_ref(n)] = t.id
         new = []
+        self.last_tips = [c.id] + [v for v in refs.values()]
         for o, kids in built:
             if o.id not in self.objs:
                 self.objs[o.id] = (o.type_name, tuple(kids))
+                self.shafiles[o.id] = o
                 new.append(o)
         return new, refs
 
@@ -268,6 +272,8 @@ def script_strategy():
         st.tuples(st.just("foreign"), st.sampled_from(["cg", "midx", "bitmap"])),
         st.just(("swapbitmap",)),
         st.just(("reopen",)),
+        st.just(("query",)), st.just(("query",)),
+        st.tuples(st.just("shallow"), st.integers(0, 11)),
     )
     return st.tuples(st.integers(1, 4), st.lists(op, min_size=3, max_size=9)).map(
         lambda t: [("advance", t[0])] + [tuple(o) for o in t[1]]
